@@ -130,15 +130,15 @@ func (r *TautologyRule) Description() string { return "Tautology / blind injecti
 
 var tautologyPatterns = []*regexp.Regexp{
 	// OR 1=1 and variants
-	regexp.MustCompile(`(?i)\bOR\s+1\s*=\s*1\b`),
-	regexp.MustCompile(`(?i)\bOR\s+0\s*=\s*0\b`),
+	regexp.MustCompile(`(?i)\bOR[\s(]+1\s*=\s*1\b`),
+	regexp.MustCompile(`(?i)\bOR[\s(]+0\s*=\s*0\b`),
 	// OR 'a'='a' and variants with single/double quotes
-	regexp.MustCompile(`(?i)\bOR\s+'[^']*'\s*=\s*'[^']*'`),
-	regexp.MustCompile(`(?i)\bOR\s+"[^"]*"\s*=\s*"[^"]*"`),
+	regexp.MustCompile(`(?i)\bOR[\s(]+'[^']*'\s*=\s*'[^']*'`),
+	regexp.MustCompile(`(?i)\bOR[\s(]+"[^"]*"\s*=\s*"[^"]*"`),
 	// OR true
-	regexp.MustCompile(`(?i)\bOR\s+true\b`),
+	regexp.MustCompile(`(?i)\bOR[\s(]+true\b`),
 	// OR ''=''
-	regexp.MustCompile(`(?i)\bOR\s+''\s*=\s*''`),
+	regexp.MustCompile(`(?i)\bOR[\s(]+''\s*=\s*''`),
 }
 
 func (r *TautologyRule) Check(sql string) []Finding {
